@@ -10,6 +10,7 @@ mod gen;
 mod hist;
 mod iofault;
 mod lin;
+mod lockrace;
 mod logsim;
 mod plan;
 mod report;
